@@ -164,6 +164,36 @@ class RepoBuild:
         return h
 
 
+QMAIL_USERS = {"alias": 7790, "qmaild": 7791, "qmaill": 7792, "root": 0, "qmailp": 7793, "qmailq": 7794,
+               "qmailr": 7795, "qmails": 7796}
+QMAIL_GROUPS = {"qmail": 2107, "nofiles": 2108}
+SHIM = os.path.join(BUILD, "sysshim.so")
+
+
+def shim_env(home, log=None, extra=None, users=None):
+    """environment that runs a program under the interposer with the qmail accounts served by it"""
+    pw = os.path.join(scratch(), "passwd.%d" % (len(os.listdir(scratch()))))
+    with open(pw, "w") as f:
+        for n, u in QMAIL_USERS.items():
+            f.write("%s:%d:%d:%s\n" % (n, u, QMAIL_GROUPS["qmail" if n in ("qmailq", "qmailr", "qmails") else "nofiles"] if n != "root" else 0,
+                                       os.path.join(home, "alias") if n == "alias" else home))
+        for line in (users or []):
+            f.write(line + "\n")
+    gr = pw + ".group"
+    with open(gr, "w") as f:
+        for n, g in QMAIL_GROUPS.items():
+            f.write("%s:%d\n" % (n, g))
+    if not os.path.exists(SHIM) or os.path.getmtime(SHIM) < os.path.getmtime(os.path.join(VERIF, "shim", "sysshim.c")):
+        os.makedirs(BUILD, exist_ok=True)
+        subprocess.check_call(["gcc", "-shared", "-fPIC", "-O1", "-o", SHIM, os.path.join(VERIF, "shim", "sysshim.c"), "-ldl"])
+    env = dict(os.environ, LD_PRELOAD=SHIM, SYSSHIM_PASSWD=pw, SYSSHIM_GROUP=gr)
+    if log:
+        env["SYSSHIM_LOG"] = log
+    if extra:
+        env.update(extra)
+    return env
+
+
 class HarnessBuildError(Exception):
     pass
 
@@ -385,7 +415,7 @@ class Check:
         if key in self.known:
             if key not in self.known_hits:
                 self.known_hits[key] = 0
-                print("KNOWN-FINDING: property=%s %s (%s)" % (self.pid, key, self.known[key]["what"]), flush=True)
+                print("KNOWN-FINDING: property=%s %s (%s)" % (self.pid, key, self.known[key]["what"][:150].rstrip() + ("..." if len(self.known[key]["what"]) > 150 else "")), flush=True)
             self.known_hits[key] += 1
             return
         if any(v[0] == key for v in self.violations) and len(self.violations) >= 1:
